@@ -71,6 +71,20 @@ pub fn corpus(quick: bool) -> Vec<Gen> {
             }
         }
     }
+    // cycle of length 2 whose second rule carries the name of a non-keyword built-in
+    for name in ["NEWLINE", "ASCII_DIGIT", "LETTER"] {
+        for m2 in ["", "_", "@"] {
+            for c1 in &ctx {
+                for c2 in &ctx {
+                    out.push(Gen { text: format!("r = {{ {} }} {name} = {m2}{{ {} }}", fill(c1, name), fill(c2, "r")), class: "cycle2-builtin-named" });
+                }
+            }
+        }
+        // and the optimizer's skip shape looking into such a cycle
+        for c2 in &ctx {
+            out.push(Gen { text: format!("line = @{{ (!{name} ~ ANY)* }} {name} = _{{ \"b\" | eol }} eol = _{{ \"ab\" | {} }}", fill(c2, name)), class: "cycle2-builtin-named" });
+        }
+    }
     // cycle of length 3
     let ctx3: Vec<&String> = if quick { ctx.iter().filter(|c| !c.contains("{2") && !c.contains("'a'") && !c.contains("SOI")).collect() } else { ctx.iter().collect() };
     for m in if quick { &MODS[..3] } else { MODS } {
@@ -520,7 +534,7 @@ pub fn check_one(g: &Gen, known: &Known, stats: &mut Stats, inputs: &[String], c
         Err(msgs) => {
             stats.inc("grammars_rejected_by_pest");
             stats.outcome(&format!("rejected:{}", g.class));
-            if is_guarded && msgs.iter().all(|m| m.contains("tags on silent rules")) {
+            if is_guarded && msgs.iter().all(|m| m.contains("tags on silent rules") || m.contains("tags on built-in rules")) {
                 // an unrelated restriction of grammar-extras, not a termination judgement
                 stats.inc("excluded.rejected-for-tag-on-silent-rule");
             } else if is_guarded {
